@@ -141,7 +141,12 @@ static void hang_handler(int)
 
 static uint64_t run_seed(const Config& cfg, const Engine& e, uint64_t i)
 {
-    return splitmix64(cfg.batch_seed ^ (e.tag() * 0x9E3779B97F4A7C15ULL) ^ splitmix64(i));
+    // the property id is part of the derivation so that two properties served by one engine
+    // explore different seeds
+    uint64_t ph = 1469598103934665603ULL;
+    for (unsigned char c : cfg.prop)
+        ph = (ph ^ c) * 1099511628211ULL;
+    return splitmix64(cfg.batch_seed ^ (e.tag() * 0x9E3779B97F4A7C15ULL) ^ splitmix64(i) ^ ph);
 }
 
 // ------------------------------------------------------------------ test predicate used by the minimiser
